@@ -12,12 +12,21 @@ Open Scope N_scope.
 
 Lemma vpoll_acts now v dr : acts now dr (snd (vpoll now v dr)).
 Proof.
-  destruct v as [s|p]; cbn [vpoll]; [|apply acts_refl].
+  destruct v as [s|p|ch|s]; cbn [vpoll]; try apply acts_refl.
   pose proof (sleep_poll_acts now s dr) as H. destruct (sleep_poll now s dr) as [[r s'] dr']. exact H.
 Qed.
 
+Lemma vpoll_m_acts m now vm dr : acts now dr (snd (vpoll_m m now vm dr)).
+Proof.
+  unfold vpoll_m. destruct (fst vm) as [s|p|ch|s] eqn:E.
+  - pose proof (vpoll_acts now (VSleep s) dr) as H. destruct (vpoll now (VSleep s) dr) as [[r v'] dr']. exact H.
+  - pose proof (vpoll_acts now (VFlip p) dr) as H. destruct (vpoll now (VFlip p) dr) as [[r v'] dr']. exact H.
+  - destruct (mail_take m ch (snd vm)) as [[s mail']|]; apply acts_refl.
+  - pose proof (vpoll_acts now (VGot s) dr) as H. destruct (vpoll now (VGot s) dr) as [[r v'] dr']. exact H.
+Qed.
+
 Lemma vdrop_acts now v dr : acts now dr (vdrop v dr).
-Proof. destruct v as [s|p]; cbn [vdrop]; [apply sleep_drop_acts|apply acts_refl]. Qed.
+Proof. destruct v as [s|p|ch|s]; cbn [vdrop]; try apply sleep_drop_acts; apply acts_refl. Qed.
 
 Lemma iv_drop_acts now iv dr : acts now dr (iv_drop iv dr).
 Proof. destruct iv as [i|]; cbn [iv_drop]; [apply sleep_drop_acts|apply acts_refl]. Qed.
@@ -27,7 +36,7 @@ Proof. eapply acts_trans; [apply sleep_drop_acts|apply sleep_drop_acts]. Qed.
 
 Lemma poll_aw0_acts now a iv dr : acts now dr (snd (fst (poll_aw0 now a iv dr))).
 Proof.
-  destruct a as [s|v dl|biased tie a b| |ch|tr s]; cbn [poll_aw0].
+  destruct a as [s|v dl|biased tie a b| |ch|tr s|rf ch s]; cbn [poll_aw0].
   - pose proof (sleep_poll_acts now s dr) as H. destruct (sleep_poll now s dr) as [[r s'] dr']. exact H.
   - pose proof (timeout_poll_acts _ vpoll now v dl dr (fun v0 dr0 => vpoll_acts now v0 dr0)) as H.
     destruct (timeout_poll vpoll now v dl dr) as [[[res v'] dl'] dr']. cbn [snd] in H.
@@ -44,17 +53,30 @@ Proof.
     pose proof (poll_tick_acts now i dr) as H. destruct (poll_tick now i dr) as [[res i'] dr']. exact H.
   - apply acts_refl.
   - pose proof (sleep_poll_acts now s dr) as H. destruct (sleep_poll now s dr) as [[r s'] dr']. exact H.
+  - apply acts_refl.
 Qed.
 
 Lemma poll_aw_acts now m a iv dr mail : acts now dr (snd (fst (fst (poll_aw now m a iv dr mail)))).
 Proof.
-  destruct a as [s|v dl|biased tie a b| |ch|tr s]; cbn [poll_aw fst]; try apply poll_aw0_acts.
-  destruct (mail_take m ch mail) as [[s mail']|]; cbn [fst snd]; [apply poll_aw0_acts|apply acts_refl].
+  destruct a as [s|v dl|biased tie a b| |ch|tr s|rf ch s]; cbn [poll_aw fst]; try apply poll_aw0_acts.
+  - pose proof (timeout_poll_acts _ (vpoll_m m) now (v, mail) dl dr (fun v0 dr0 => vpoll_m_acts m now v0 dr0)) as H.
+    destruct (timeout_poll (vpoll_m m) now (v, mail) dl dr) as [[[res vm'] dl'] dr']. cbn [snd] in H.
+    destruct res; cbn [fst snd]; [exact H| |];
+      (eapply acts_trans; [exact H|]; eapply acts_trans; [apply vdrop_acts|apply sleep_drop_acts]).
+  - destruct (mail_take m ch mail) as [[s mail']|]; cbn [fst snd]; [apply poll_aw0_acts|apply acts_refl].
+  - destruct rf.
+    + destruct (mail_take m ch mail) as [[x mail']|]; cbn [fst snd]; [apply drops_acts|].
+      pose proof (sleep_poll_acts now s dr) as H. destruct (sleep_poll now s dr) as [[r s'] dr']. cbn [snd] in H.
+      destruct r; cbn [fst snd]; [|exact H]. eapply acts_trans; [exact H|apply sleep_drop_acts].
+    + pose proof (sleep_poll_acts now s dr) as H. destruct (sleep_poll now s dr) as [[r s'] dr']. cbn [snd] in H.
+      destruct r; cbn [fst snd]; [eapply acts_trans; [exact H|apply sleep_drop_acts]|].
+      destruct (mail_take m ch mail) as [[x mail']|]; cbn [fst snd]; [|exact H].
+      eapply acts_trans; [exact H|apply drops_acts].
 Qed.
 
 Lemma start_step0_acts now s iv dr nid lg : acts now dr (snd (fst (fst (start_step0 now s iv dr nid lg)))).
 Proof.
-  destruct s as [d|t|d v|biased a b|p b| | |polled d1 d2|d| |ch d|ch]; cbn [start_step0]; try apply acts_refl.
+  destruct s as [d|t|d v|biased a b|p b| | |polled d1 d2|d| |ch d|ch|d ch|rf ch d]; cbn [start_step0]; try apply acts_refl.
   - destruct v; apply acts_refl.
   - apply iv_drop_acts.
   - apply iv_drop_acts.
@@ -75,7 +97,7 @@ Qed.
 Lemma start_step_acts now m k s iv dr nid lg mail :
   acts now dr (snd (fst (fst (fst (start_step now m k s iv dr nid lg mail))))).
 Proof.
-  destruct s as [d|t|d v|biased a b|p b| | |polled d1 d2|d| |ch d|ch]; cbn [start_step fst]; try apply start_step0_acts.
+  destruct s as [d|t|d v|biased a b|p b| | |polled d1 d2|d| |ch d|ch|d ch|rf ch d]; cbn [start_step fst]; try apply start_step0_acts.
   pose proof (sleep_poll_acts now (sleep_new (now + d) nid) dr) as H.
   destruct (sleep_poll now (sleep_new (now + d) nid) dr) as [[r s1] dr1]. cbn [fst snd] in *. exact H.
 Qed.
